@@ -609,7 +609,7 @@ Definition micro (s : state) (t : nat) (rec : list Z) : option (state * list Z) 
           | Some ob =>
               if (strong w =? 0) && (word ob =? w) then
                 ret (seto s o (with_word ob (with_destructed w true))) x (FDispDo o depth w curr :: k) [130; zo o; w]
-              else ret s x (FTD113 o :: k) [130; zo o; w; 1130; zo o; 0]
+              else ret (defer s KDestruct o) x k [130; zo o; w; 1130; zo o; 0]
           end
       | FDispDo o depth w curr =>
           match geto s o with
